@@ -33,10 +33,12 @@ func init() {
 		resp := M{Name: "ItemResp", Fields: []F{{Name: "id", Num: 1, Type: TString}, {Name: "total", Num: 2, Type: TInt64}}}
 		nf := M{Name: "NotFoundError", Fields: []F{{Name: "resource_type", Num: 1, Type: TString}, {Name: "resource_id", Num: 2, Type: TString}}}
 		other := M{Name: "OtherReq", Fields: []F{{Name: "name", Num: 1, Type: TString}}}
+		// one request message bound by two routes with different path-variable sets
+		zone := M{Name: "ZoneReq", Fields: []F{{Name: "org", Num: 1, Type: TString}, {Name: "zone_id", Num: 2, Type: TString}, {Name: "note", Num: 3, Type: TString}}}
 		return Schema{Files: []File{{
 			Name: "gen/binding/binding.proto", Package: "acme.binding", GoPackage: "verifmod/gen/binding;binding",
 			Deps:     []string{"proto/sebuf/http/annotations.proto", "proto/sebuf/http/headers.proto"},
-			Messages: []M{req, upd, resp, nf, other},
+			Messages: []M{req, upd, resp, nf, other, zone},
 			Services: []S{
 				{Name: "ItemService", Ext: []ExtV{Base("/api/v1"), SvcHeaders(hdr("X-API-Key", "string", "uuid", true), hdr("X-Tenant", "string", "", false))},
 					Methods: []Me{
@@ -47,6 +49,8 @@ func init() {
 					Methods: []Me{
 						{Name: "Create", In: ".acme.binding.OtherReq", Out: ".acme.binding.ItemResp", Ext: []ExtV{HTTP(sh.HttpMethod_HTTP_METHOD_POST, "/create"), MethodHeaders(hdr("X-Count", "integer", "", true))}},
 						{Name: "Remove", In: ".acme.binding.OtherReq", Out: ".acme.binding.ItemResp", Ext: []ExtV{HTTP(sh.HttpMethod_HTTP_METHOD_DELETE, "/remove/{name}")}},
+						{Name: "AddZone", In: ".acme.binding.ZoneReq", Out: ".acme.binding.ItemResp", Ext: []ExtV{HTTP(sh.HttpMethod_HTTP_METHOD_POST, "/orgs/{org}/zones")}},
+						{Name: "SetZone", In: ".acme.binding.ZoneReq", Out: ".acme.binding.ItemResp", Ext: []ExtV{HTTP(sh.HttpMethod_HTTP_METHOD_PUT, "/orgs/{org}/zones/{zone_id}")}},
 					}},
 			},
 		}}}
